@@ -15,6 +15,11 @@ open WM.Proto WM.Proto.SExp WM.Rank WM.Collect
   `collectStack`: `allow`/`restrict` = `none` or `(docs…)`, `collapse` = `none` or
   `(climit ((doc ckey|none) …) none|((doc (key…)) …))`; reply `ok hits total filtered ((ckey count)…) may_have_dropped`.
 * `c05 spec k ((doc score) …)` — the specification `topK k` (k = `none`: the whole ranking).
+* `c05 ftc (limit replace usequality useFinal) (finaltable) fobj mobj (segs) (sched)` — `searchFilterObjs`: `filter=` /
+  `mask=` given as objects. `fobj` = `none` | `other` | `(ids (docs…))` | `(query (segs))` | `(unl (segs))` |
+  `(top (limit replace usequality) (segs) prior)` | `(page (limit replace usequality) (segs) prior)` — the `Results` /
+  `ResultsPage` of a limited scored search over `segs` (no matcher drops), `prior` = `docs()` was called on it before.
+  Reply `ok allow|none restrict|none (ok hits filtered)|(err name)` (the sets sorted) or `exc unknown-object`.
 -/
 
 def posting? (e : SExp) : Option Posting := do
@@ -57,7 +62,43 @@ def showErr : Err → String
   | .keyError => "KeyError"
   | .valueError => "ValueError"
 
+def fobj? (e : SExp) : Option FilterObj :=
+  match e with
+  | .atom "none" => some .absent
+  | .atom "other" => some .other
+  | .list [.atom "ids", d] => do some (.ids (← d.natList?))
+  | .list [.atom "query", sg] => do some (.query (globalDocs (← listOf? seg? sg)))
+  | .list [.atom "unl", sg] => do
+    match searchUnlimitedObj 10 false (fun _ s => s) false (← listOf? seg? sg) [] with
+    | .error _ => none
+    | .ok r => some (.results r)
+  | .list [.atom kind, .list [l, r, uq], sg, prior] => do
+    let cfg : Cfg := { limit := ← l.nat?, replace := ← r.nat?, usequality := ← uq.bool?, useFinal := false }
+    let prior ← prior.bool?
+    match searchTopObj cfg (fun _ s => s) (← listOf? seg? sg) [] with
+    | .error _ => none
+    | .ok r =>
+      let r := if prior then r.docs.2 else r
+      if kind == "top" then some (.results r) else if kind == "page" then some (.page r) else none
+  | _ => none
+
+def showComb : Option (List Nat) → String
+  | none => "none"
+  | some s => showNatList (s.mergeSort (· ≤ ·)).eraseDups
+
 def handle : List SExp → String
+  | [.atom "ftc", .list [l, r, uq, uf], ft, fo, mo, sg, sc] =>
+    match l.nat?, r.nat?, uq.bool?, uf.bool?, listOf? hit? ft, fobj? fo, fobj? mo, listOf? seg? sg, listOf? step? sc with
+    | some l, some r, some uq, some uf, some ft, some fo, some mo, some sg, some sc =>
+      let cfg : Cfg := { limit := l, replace := r, usequality := uq, useFinal := uf }
+      match searchFilterObjs cfg (finalOf ft) fo mo sg sc, filterToComb fo, filterToComb mo with
+      | .ok res, .ok al, .ok re =>
+        let tail := match res with
+          | .error e => s!"(err {showErr e})"
+          | .ok (hs, st, _) => s!"(ok {showHits hs} {st.filtered})"
+        s!"ok {showComb al} {showComb re} {tail}"
+      | _, _, _ => "exc unknown-object"
+    | _, _, _, _, _, _, _, _, _ => "bad-op"
   | [.atom "top", .list [l, r, uq, uf], ft, sg, sc] =>
     match l.nat?, r.nat?, uq.bool?, uf.bool?, listOf? hit? ft, listOf? seg? sg, listOf? step? sc with
     | some l, some r, some uq, some uf, some ft, some sg, some sc =>
